@@ -84,7 +84,7 @@ def h_url_format(p: str, kind: int, pf: int, iv: int) -> bool:
 # ---------------------------------------------------------------------------
 # save_html / copy_to on the real file system (scratch directory per path, removed afterwards)
 
-_FILES = ["a.js", "sp ace.js", "p%41.js", "h#1.css", "q?x.css", "é☃.js", "sub/n.js", "sub/deep/x y.css"]
+_FILES = ["a.js", "sp ace.js", "p%41.js", "h#1.css", "q?x.css", "é☃.js", "sub/n.js", "sub/deep/x y.css", ".vendor/theme.css"]
 _LIBDIR = [None, "lib", "a/b"]
 
 
@@ -113,7 +113,7 @@ def _copy_body(f0: int, f1: int, lib: int, iv: int, allf: int, stale: int, missi
     try:
         srcdir = os.path.join(tmp, "src dir")
         names = [_FILES[f0], _FILES[f1]]
-        extra = ["extra.txt", "sub/other.bin", "deep/er/z.js"]
+        extra = ["extra.txt", "sub/other.bin", "deep/er/z.js", ".nojekyll", ".cfg/inner/.keep", "~tmp#"]
         for n in names + extra:
             _write(os.path.join(srcdir, n), "content of " + n)
         if missing == 1:
